@@ -23,8 +23,10 @@ Decided:
     last has no carry-out; limbs in [a_size, res_size) are zero-stores; the carry lives in the first N*8 scratch bytes.
  R  range variant: reads exactly the limbs {begin + i*step < end} of the big vector and forwards to the same loop; the
     big variant forwards with stride N.
-Not decided: value ranges (|a_i| <= 2^62 keeps the carry sums inside int64), i.e. that D/C are *the* balanced digit and
-carry as integers rather than modulo 2^64 (the idiom is recognised, its arithmetic meaning is the documented one)."""
+ O  ranges: with |in| <= 2^62 and the carry-in inside an inductive bound B_k (the carry-out of every argument shape stays inside
+    B_k, found by iteration from 2^62), no addition or subtraction of the primitive leaves int64 and out lies in
+    [-2^(k-1), 2^(k-1)): the chain of V is a statement about integers, for every chain length.
+The arithmetic meaning of the recognised idioms (D = sign-extended low k bits, C = exact quotient) is a bit-vector fact."""
 from fractions import Fraction as Fr
 
 from .. import ctx
@@ -360,6 +362,110 @@ def digit_chain(L, R, tier):
     return nruns, ncmp
 
 
+def idiom_range(v, k, atom, findings, memo):
+    """signed range of a digit/carry expression read over the integers; records every add/sub whose exact result leaves
+    int64 (the wrap inside the digit idiom shl/ashr is intentional and is not an arithmetic overflow)"""
+    if is_int(v):
+        v = v - M64 if v >= (M64 >> 1) else v
+        return (v, v)
+    if not isinstance(v, Sym):
+        return None
+    r = memo.get(v)
+    if r is not None:
+        return r
+    e = v.e
+    H = 1 << 63
+    t = is_C(v, k)
+    if t is not None:
+        rt = idiom_range(t, k, atom, findings, memo)
+        if rt is None:
+            r = None
+        else:
+            d = (-(1 << (k - 1)), (1 << (k - 1)) - 1)
+            lo, hi = rt[0] - d[1], rt[1] - d[0]          # t - D(t)
+            if lo < -H or hi >= H:
+                findings.append('t - digit(t) leaves int64 for t in [%d, %d]' % rt)
+            r = (lo >> k, hi >> k)
+    else:
+        t = is_D(v, k)
+        if t is not None:
+            rt = idiom_range(t, k, atom, findings, memo)
+            r = None if rt is None else (max(rt[0], -(1 << (k - 1))) if rt[0] >= -(1 << (k - 1)) and rt[1] < (1 << (k - 1)) else -(1 << (k - 1)),
+                                         min(rt[1], (1 << (k - 1)) - 1) if rt[0] >= -(1 << (k - 1)) and rt[1] < (1 << (k - 1)) else (1 << (k - 1)) - 1)
+        elif e[0] in ('add', 'sub') and e[1] == 64:
+            a, b = idiom_range(e[2], k, atom, findings, memo), idiom_range(e[3], k, atom, findings, memo)
+            if a is None or b is None:
+                r = None
+            else:
+                r = (a[0] + b[0], a[1] + b[1]) if e[0] == 'add' else (a[0] - b[1], a[1] - b[0])
+                if r[0] < -H or r[1] >= H:
+                    findings.append('%s of [%d, %d] and [%d, %d] leaves int64' % (e[0], a[0], a[1], b[0], b[1]))
+                    r = (-H, H - 1)
+        elif e[0] == 'in':
+            r = atom(e)
+        else:
+            r = None
+    memo[v] = r
+    return r
+
+
+def range_check(L, R, tier):
+    """O: with |in| <= 2^62 and the carry-in inside an inductive bound B_k (the carry-out of every argument shape stays inside
+    it), no addition or subtraction of the primitive leaves int64: the digit/carry chain is a statement about integers"""
+    K = KERNELS('quick')
+    box = KBox(L)
+    ks = [1, 2, 3, 19, 32, 61, 62] if tier == 'quick' else list(range(1, 63))
+    names = sorted(n for n in K if n.startswith('znx_normalize#'))
+    n = 0
+    for k in ks:
+        runs = {}
+        for name in names:
+            sp = dict(K[name])
+            sp['args'] = list(K[name]['args'])
+            sp['args'][1] = ('i', lambda s, k=k: k)
+            try:
+                r = box.instantiate(name, sp, {'nn': 1}, 'accel', expand='values')
+            except (Unsupported, NeedEnum) as e:
+                R.broke('%s k=%d: %s' % (name, k, e))
+                continue
+            if r.status == 'ok':
+                runs[name] = final_state(r, ('out',))
+        B = 1 << 62
+        bad = None
+        for it in range(6):
+            worst = 0
+            finds = []
+            for name, st in runs.items():
+                for buf in ('out', 'carry_out'):
+                    e = st.get(buf, {}).get(0)
+                    if e is None:
+                        continue
+                    memo = {}
+                    rg = idiom_range(e[1], k, lambda a, B=B: (-(1 << 62), 1 << 62) if a[1] == 'in' else (-B, B), finds, memo)
+                    n += 1
+                    if rg is None:
+                        R.broke('%s k=%d: %s outside the digit/carry algebra' % (name, k, buf))
+                        continue
+                    if buf == 'carry_out':
+                        worst = max(worst, abs(rg[0]), abs(rg[1]))
+                    elif rg[0] < -(1 << (k - 1)) or rg[1] >= (1 << (k - 1)):
+                        bad = bad or '%s: out is not known to lie in [-2^(k-1), 2^(k-1))' % name
+            if finds:
+                bad = bad or finds[0]
+                break
+            if worst <= B:
+                break
+            B = worst
+        else:
+            bad = bad or 'no inductive carry bound found'
+        subj = 'znx_normalize k=%d' % k
+        if bad:
+            R.ob('digit-chain-stays-inside-int64', subj, 'refuted', detail=bad, key='znx_normalize:range:k=%d' % k, witness={'k': k})
+        else:
+            R.ob('digit-chain-stays-inside-int64', subj, 'holds', detail='carry bound %d (2^62 + %d)' % (B, B - (1 << 62)))
+    return n
+
+
 def loop_structure(L, R, tier, value_refuted=()):
     box = ApiBox(L)
     nruns = 0
@@ -455,6 +561,8 @@ def run(tier):
     L = ctx.lib()
     n1 = identity_check(L, R, tier)
     n3, n4 = digit_chain(L, R, tier)
+    n5 = range_check(L, R, tier)
+    R.floor('range evaluations of the primitive (argument shape x k x bound iteration)', n5, 50)
     vref = {o['subject'] for o in R.obligations if o['rule'] == 'limbs-are-the-digits-of-the-carry-chain' and o['status'] != 'holds'}
     n2 = loop_structure(L, R, tier, vref)
     R.floor('value-mode instantiations for the digit-chain clause', n3, 1000)
